@@ -457,8 +457,20 @@ def _search_property(pid, tier, seed, bfs, dijkstra, invariants=("AllResultsOK",
         want.add("search")
     if dijkstra:
         want.add("dijkstra")
+    files = _search_files(pid, tier, seed, want)
+    if len(want) == 1:
+        # the deepest graphs (paths), results known in closed form: 3 000 hops with every entry point,
+        # 2^16 - 1, 2^16 and 2^16 + 1 vertices without the quadratic all-paths enumerations; the harness
+        # runs these with a 256 KB stack
+        deep = os.path.join(os.path.dirname(files[0][1]), "deep.ndjson")
+        with open(deep, "w") as f:
+            f.write(json.dumps({"k": "search_deep", "n": 3000 if tier == "quick" else 6000}) + "\n")
+            f.write(json.dumps({"k": "search_deep", "n": 400 if tier == "quick" else 700, "fromv": True}) + "\n")
+            for n in (65535, 65536, 65537) + (() if tier == "quick" else (131072, 262144)):
+                f.write(json.dumps({"k": "search_deep", "n": n, "light": True}) + "\n")
+        files.append(("deep-paths", deep, {"families": NOLABEL if bfs else ["multigraph+weighted classes"], "_stack_kb": 256}))
     results, violations = run_all(pid, _search_sets(tier, bfs=bfs, dijkstra=dijkstra),
-                                  _search_files(pid, tier, seed, want), seed, ah, invariants=invariants)
+                                  files, seed, ah, invariants=invariants)
     m, mv = _algo_models(pid, tier, (["bfs"] if bfs else []) + (["dijkstra"] if dijkstra else []))
     return violations + mv, coverage_of(results + m), ALGO_ASSUMPTIONS
 
